@@ -145,7 +145,7 @@ def fgClauses (g : G) (kmax tclimit : Nat) (o : FgOut) : List (Unit → List (St
 def handler : Handler := fun op inp out =>
   let bad := ("-", fail "driver-cannot-parse-input")
   match op with
-  | "fg" =>
+  | "fg" | "fg_s" =>
     match run (do let k ← P.nat; let t ← P.nat; let s ← P.rawSym; pure (k, t, s)) inp with
     | some (kmax, tclimit, s) =>
       let g := specG s
@@ -160,7 +160,7 @@ def handler : Handler := fun op inp out =>
       | some o => (model, stages (fgClauses g kmax tclimit o))
       | none => (model, fail "no-presentation-returned")
     | none => bad
-  | "inner" =>
+  | "inner" | "inner_s" =>
     match run P.rawSym inp with
     | some s =>
       let g := specG s
